@@ -20,7 +20,7 @@ ASSUMPTIONS = []
 BADNAMES = ['', '.', '..', 'a/b', '/lead', 'trail/', 'a//b', 'nul\x00in', 'metadatabundle', 'data', 'dim0', 'x' * 5000, 'é/ü', ' ', 'a.b', './x', 'x']
 
 
-def md_edge_values(rng):
+def md_edge_values(rng, n_random=150):
     f = lambda x: ['float', float(x).hex()]
     base = [
         ['np', 'float32', f(1.5)], ['np', 'int8', ['int', -3]], ['np', 'uint64', ['int', 2 ** 63]], ['np', 'bool', ['bool', True]], ['np', 'complex64', ['complex', (1.0).hex(), (2.0).hex()]],
@@ -43,7 +43,7 @@ def md_edge_values(rng):
         out.append(['dict', [['k', v]]])
         if v[0] not in ('set',):
             out.append(['dict', [['outer', ['dict', [['inner', v]]]]]])
-    for _ in range(150):
+    for _ in range(n_random):
         # random mixed sequences
         elems = [rng.choice([M.g_scalar(rng), M.g_arr(rng), ['tuple', M.g_numseq(rng)], ['list', M.g_numseq(rng)], ['np', 'float32', f(rng.choice([0.5, 2.0]))],
                              ['bytes', 'z'], ['dict', []]]) for _ in range(rng.choice([1, 2, 3]))]
@@ -53,7 +53,7 @@ def md_edge_values(rng):
 
 def cases(seed, tier):
     rng = random.Random(seed * 71 + 15)
-    out = [{'stream': 'm', 'v': v, 'where': 'root'} for v in md_edge_values(rng)]
+    out = [{'stream': 'm', 'v': v, 'where': 'root'} for v in md_edge_values(rng, 150 if tier == 'quick' else 8000)]
     for nm in BADNAMES:
         for pos in ('node', 'root', 'mdkey', 'mdkey_nested', 'mdkey_nested2', 'mdname', 'field', 'leafnode'):
             out.append({'stream': 'n', 'name': nm, 'pos': pos})
